@@ -105,3 +105,10 @@ Fixpoint group (fuel : nat) (m : mesh) (all : list Z) : list (list Z) :=
 Definition artefacts (m : mesh) : list (list Z) := let all := get_artifacts m in group (length all) m all.
 (* the whole pass: every artefact contracted in turn *)
 Definition clean_up (m : mesh) : mesh := fold_left t3 (artefacts m) m.
+
+(* executable form of the premises of the theorem "the contraction leaves no artefact vertex in any cell" (evaluated on recorded states) *)
+Fixpoint nodupb (l : list Z) : bool := match l with [] => true | x :: t => negb (memZ x t) && nodupb t end.
+Definition t3_hyps (m : mesh) (art : list Z) : bool :=
+  forallb (fun v => memZ v (vids m)) art &&
+  forallb (fun kc : Z * list Z => nodupb (snd kc)) (mcells m) &&
+  forallb (fun v => forallb (fun kc : Z * list Z => negb (memZ v (snd kc)) || memZ (fst kc) (aget [] v (ownC m))) (mcells m)) art.
